@@ -1048,9 +1048,10 @@ func substr(fn parser.Function, args []value.Primary, zeroBasedIndex bool) (valu
 		if sublen < 0 {
 			return value.NewNull(), nil
 		}
-		end = start + sublen
-		if strlen < end {
+		if strlen-start < sublen {
 			end = strlen
+		} else {
+			end = start + sublen
 		}
 	}
 
